@@ -144,12 +144,34 @@ Definition d2_orth (box : vec) (x y : vec) : Z :=
   let e0 := mic1 b0 (x0 - y0) in let e1 := mic1 b1 (x1 - y1) in let e2 := mic1 b2 (x2 - y2) in
   (e0 * e0 + e1 * e1 + e2 * e2)%Z.
 
+(* triclinic cell with box vectors a, b, c (rows of unitcell_vectors): the minimum image distance is the
+   minimum over lattice translations; the model takes it over all i, j, k in [-K, K] (exhaustive search, K = 2;
+   enough for reduced cells and separations of a few cell lengths, which is what the generator produces) *)
+Definition zrange (k : Z) : list Z := map (fun i => (Z.of_nat i - k)%Z) (seq 0 (Z.to_nat (2 * k + 1))).
+
+Definition d2_tri (K : Z) (a b c : vec) (x y : vec) : Z :=
+  let '(x0, x1, x2) := x in let '(y0, y1, y2) := y in
+  let '(a0, a1, a2) := a in let '(b0, b1, b2) := b in let '(c0, c1, c2) := c in
+  let r0 := (x0 - y0)%Z in let r1 := (x1 - y1)%Z in let r2 := (x2 - y2)%Z in
+  let cands := flat_map (fun i => flat_map (fun j => map (fun k =>
+      let e0 := (r0 + i * a0 + j * b0 + k * c0)%Z in
+      let e1 := (r1 + i * a1 + j * b1 + k * c1)%Z in
+      let e2 := (r2 + i * a2 + j * b2 + k * c2)%Z in
+      (e0 * e0 + e1 * e1 + e2 * e2)%Z) (zrange K)) (zrange K)) (zrange K) in
+  fold_right Z.min (r0 * r0 + r1 * r1 + r2 * r2)%Z cands.
+
+Inductive cell := COrth (lengths : vec) | CTri (a b c : vec).
+
 (* periodic=True uses the cell only when the trajectory has one *)
-Definition dist2 (box : option vec) (periodic : bool) (f : frame) (p : nat * nat) : Z :=
+Definition dist2_pts (box : option cell) (periodic : bool) (x y : vec) : Z :=
   match box, periodic with
-  | Some b, true => d2_orth b (coord f (fst p)) (coord f (snd p))
-  | _, _ => d2_plain (coord f (fst p)) (coord f (snd p))
+  | Some (COrth b), true => d2_orth b x y
+  | Some (CTri a b c), true => d2_tri 2 a b c x y
+  | _, _ => d2_plain x y
   end.
+
+Definition dist2 (box : option cell) (periodic : bool) (f : frame) (p : nat * nat) : Z :=
+  dist2_pts box periodic (coord f (fst p)) (coord f (snd p)).
 
 (* ------------------------------------------------------------------ compute_contacts *)
 Inductive cspec := CAll (ignore_nonprotein : bool) | CExplicit (pairs : list (Z * Z)).
@@ -198,7 +220,7 @@ Fixpoint ca_scan (strict : bool) (top : topology) (pairs : list (nat * nat))
       end
   end.
 
-Definition contacts (strict : bool) (top : topology) (s : scheme) (c : cspec) (box : option vec)
+Definition contacts (strict : bool) (top : topology) (s : scheme) (c : cspec) (box : option cell)
            (periodic : bool) (frames : list frame) : cres :=
   match resolve top c with
   | inl e => CErr e
@@ -293,7 +315,7 @@ Definition scheme_of_nat (n : nat) : scheme :=
   match n with 0 => SCa | 1 => SClosest | 2 => SClosestHeavy | 3 => SSidechain | _ => SSidechainHeavy end.
 
 (* [strict] = (as-found variant) && (contacts passed as a numpy array) *)
-Definition ccase := (bool * list raw_residue * nat * cspec * option vec * bool * list frame)%type.
+Definition ccase := (bool * list raw_residue * nat * cspec * option cell * bool * list frame)%type.
 
 Definition run_contacts_min (c : ccase) : hres :=
   let '(strict, raw, s, cs, box, per, frames) := c in
